@@ -301,9 +301,9 @@ func gOptions(withE2, expOrder bool) []gPipe {
 	out := []gPipe{{}}
 	// processor lists: none, one, two in both orders, three (a chain has a first, a middle and a last link) and - C09's
 	// data-flow oracle only - three in a second order and four
-	procs := [][]string{nil, {"p1"}, {"p1", "p2"}, {"p2", "p1"}, {"p1", "p2", "p3"}}
+	procs := [][]string{nil, {"p1"}, {"p1", "P1"}, {"P1", "p1"}, {"p1", "P1", "p3"}}
 	if gLongChains {
-		procs = append(procs, []string{"p3", "p1", "p2"}, []string{"p1", "p2", "p3", "p4"})
+		procs = append(procs, []string{"p3", "p1", "P1"}, []string{"p1", "P1", "p3", "p4"})
 	}
 	for _, r := range [][2]bool{{true, false}, {false, true}, {true, true}} {
 		for e := 1; e < 8; e++ {
@@ -336,16 +336,26 @@ func gProcID(mode string, pi int, name string) component.ID {
 	return gID(name)
 }
 
-func gBuild(cfg gCfg, mode string) (*Graph, error) {
+// gBuild: a panic inside Build is Build rejecting the configuration in the worst way; it is reported as its error
+func gBuild(cfg gCfg, mode string) (g *Graph, err error) {
+	defer func() {
+		if r := recover(); r != nil {
+			g, err = nil, fmt.Errorf("Build PANICKED: %v", r)
+		}
+	}()
+	return gBuild0(cfg, mode)
+}
+
+func gBuild0(cfg gCfg, mode string) (*Graph, error) {
 	gW = &gWorld{recvT: map[string]consumer.Traces{}, recvL: map[string]consumer.Logs{}, got: map[string][]string{}, later: map[string][]func() string{}, creates: map[string]int{},
 		failStart: map[string]bool{}, failStop: map[string]bool{}, statuses: map[string][]componentstatus.Status{}}
 	rf, pf, ef, cf := gFactories()
 	one := map[component.ID]component.Config{}
-	for _, n := range []string{"r1", "e1", "e2", "p1", "p2", "p3", "p4"} {
+	for _, n := range []string{"r1", "e1", "e2", "p1", "P1", "p3", "p4"} {
 		one[gID(n)] = &struct{}{}
 	}
 	for pi := range cfg {
-		for _, n := range []string{"p1", "p2", "p3", "p4"} {
+		for _, n := range []string{"p1", "P1", "p3", "p4"} {
 			one[gProcID("C10", pi, n)] = &struct{}{}
 		}
 	}
